@@ -444,3 +444,84 @@ Section Exact.
       intros x Hx. eapply child_fuel; [exact Hn | exact Hx].
   Qed.
 End Exact.
+
+(* ---------- exported: callbacks_exact ---------- *)
+
+Theorem callbacks_exact_x W G e e' t ev :
+  follow W G e = Ok (e', t, ev) -> ev = callback_sites W G e.
+Proof.
+  intros H. unfold follow in H. apply bind_ok in H. destruct H as ([[[e1 t1] aux1] ev1] & H1 & H).
+  inversion H; subst. unfold callback_sites, call_sites.
+  exact (proj1 (follow_sites W e) (size e) G _ _ _ _ (le_n _) H1).
+Qed.
+
+(* the traversal does not depend on the fuel once it covers the expression *)
+Lemma sites_fuel_events W G e e' t ev n :
+  size e <= n -> follow W G e = Ok (e', t, ev) -> events_of (sites_n W n G e) = callback_sites W G e.
+Proof.
+  intros Hn H. rewrite <- (callbacks_exact_x W G e e' t ev H).
+  unfold follow in H. apply bind_ok in H. destruct H as ([[[e1 t1] aux1] ev1] & H1 & H). inversion H; subst.
+  symmetry. exact (proj1 (follow_sites W e) n G _ _ _ _ Hn H1).
+Qed.
+
+(* ---------- exported: metadata_upstream ---------- *)
+
+(* What ObjectStream.Select / SelectMany / Where return for a stream whose query is [src]
+   (object_stream.py: function_call(op, [n_stream.query_ast, n_ast]), n_stream = the stream after every
+   stream.MetaData(md) the callbacks applied, in order): *)
+Definition op_name (op : opkind) : string :=
+  match op with OpSelect => "Select" | OpSelectMany => "SelectMany" | OpWhere => "Where" | _ => "" end.
+Definition metas (ev : list event) : list expr :=
+  flat_map (fun e => match e with EvMeta md => [md] | _ => [] end) ev.
+Definition metadata_call (s md : expr) : expr := Call (Name "MetaData") [s; md] [] [].
+Definition with_metadata (src : expr) (mds : list expr) : expr := fold_left metadata_call mds src.
+Definition stream_query (op : opkind) (src lam : expr) (ev : list event) : expr :=
+  Call (Name (op_name op)) [with_metadata src (metas ev); lam] [] [].
+
+(* reading a source chain back: the MetaData wrappers around the source, innermost first *)
+Fixpoint peel (e : expr) : expr * list expr :=
+  match e with
+  | Call (Name "MetaData") [s; md] [] [] => let '(r, l) := peel s in (r, l ++ [md])
+  | _ => (e, [])
+  end.
+
+Definition is_metadata_call (e : expr) : bool :=
+  match e with Call (Name "MetaData") [_; _] [] [] => true | _ => false end.
+
+Lemma peel_with_metadata src mds :
+  is_metadata_call src = false -> peel (with_metadata src mds) = (src, mds).
+Proof.
+  intros Hs. unfold with_metadata. induction mds as [|md mds IH] using rev_ind.
+  - cbn. destruct src; try reflexivity. cbn in Hs.
+    destruct src; try reflexivity. destruct (String.eqb id "MetaData") eqn:E.
+    + apply String.eqb_eq in E. subst.
+      destruct args as [|? [|? [|? ?]]]; try reflexivity. destruct kwn; try reflexivity. destruct kwv; try reflexivity.
+      discriminate.
+    + assert (id <> "MetaData") by (intros ->; rewrite String.eqb_refl in E; discriminate).
+      cbn. repeat (match goal with |- context [match ?x with _ => _ end] => destruct x; try reflexivity; try congruence end).
+  - rewrite fold_left_app. cbn [fold_left]. unfold metadata_call at 1. cbn [peel]. rewrite IH. reflexivity.
+Qed.
+
+(* the MetaData of every callback site of the lambda - at whatever nesting depth - is attached to the source chain,
+   upstream of the operator node, in firing order; the operator's lambda is the followed lambda *)
+Theorem metadata_upstream_x W op G0 item p b lam t ev src :
+  stream_op W op G0 item (Lambda [p] b) = Ok (lam, t, ev) ->
+  ev = callback_sites W ((p, item) :: G0) b /\
+  exists b', lam = Lambda [p] b' /\ follow W ((p, item) :: G0) b = Ok (b', type_of W ((p, item) :: G0) b, ev) /\
+    stream_query op src lam ev =
+      Call (Name (op_name op)) [with_metadata src (metas (callback_sites W ((p, item) :: G0) b)); Lambda [p] b'] [] [] /\
+    (is_metadata_call src = false ->
+     peel (with_metadata src (metas ev)) = (src, metas (callback_sites W ((p, item) :: G0) b))).
+Proof.
+  intros H. cbn [stream_op] in H. apply bind_ok in H. destruct H as ([[b' tb] ev'] & Hf & H).
+  pose proof (callbacks_exact_x _ _ _ _ _ _ Hf) as Hev.
+  assert (Hl : lam = Lambda [p] b' /\ ev = ev').
+  { unfold finish_op in H. destruct (negb (check_ast (Lambda [p] b'))); [discriminate|].
+    destruct op; try discriminate; try (inversion H; auto; fail).
+    destruct (ty_eqb tb TBool); inversion H; auto. }
+  destruct Hl as [-> ->]. split; [exact Hev|]. exists b'. split; [reflexivity|]. split.
+  - unfold type_of. rewrite Hf. reflexivity.
+  - split.
+    + unfold stream_query. rewrite <- Hev. reflexivity.
+    + intros Hs. rewrite <- Hev. apply peel_with_metadata. exact Hs.
+Qed.
